@@ -6,7 +6,7 @@ the expected result as a term pattern over that variant's fields.  The function'
 is reconstructed as a gated term  γ(discr(scrutinee); variant -> value)  and every arm is
 compared with its row.  Exhaustiveness is checked against the enum definition.
 """
-from . import mir, tdctx
+from . import mir, tdctx, canon
 from .base import (inst, OK, VIOLATION, UNDECIDED, P, C, F, K, ANY, Agg, AggV, VF, T, match, strip,
                    gamma_arms, bool_arms, callee_is)
 from .facts import CheckerError
@@ -474,26 +474,27 @@ def dimacs_sign(prog):
         fn = prog.find1(name="from_dimacs", self_adt=self_adt, unit="rsdd-lib")
         te = fn.terms
         found = []
-        allterms = [cs.term for cs in te.calls] + [a for cs in te.calls for a in cs.args] + \
-                   [t for _, t, _ in te.aggs]
-        for t in allterms:
-            for x in mir.subterms(t):
-                if x[0] == "gamma" and x[1][0] == "discr" and mir.is_call(x[1][1], "sign"):
-                    found.append(x)
+        for g in canon.local_bodies(prog, fn):
+            gt = g.terms
+            allterms = [cs.term for cs in gt.calls] + [a for cs in gt.calls for a in cs.args] + \
+                       [t for _, t, _ in gt.aggs] + ([gt.ret] if gt.ret is not None else [])
+            for t in allterms:
+                for x in mir.subterms(t):
+                    if x[0] == "gamma" and x[1][0] == "discr" and mir.is_call(x[1][1], "sign"):
+                        found.append((gt, x))
         if not found:
             out.append(inst("DP", fn.npath + ":sign", UNDECIDED, fn, None, "no match on the literal's sign found"))
             continue
-        x = found[0]
-        arms = gamma_arms(te, x) or {}
+        gt, x = found[0]
+        arms = gamma_arms(gt, x) or {}
         e = None
         if not (match(K(0), arms.get("Neg", ())) is None and match(K(1), arms.get("Pos", ())) is None):
             e = "Sign::Neg must map to false and Sign::Pos to true, found %s" % show(x)
         out.append(inst("DP", fn.npath + ":sign", VIOLATION if e else OK, fn, None, e or "Neg ↦ false, Pos ↦ true"))
     # the printer is the inverse of the parser: a negative literal gets the minus sign, the number is label + 1
     fn = prog.find1(name="to_dimacs", self_adt="repr::cnf::Cnf", unit="rsdd-lib")
-    te = fn.terms
     signs, nums = [], []
-    for cs in te.calls:
+    for cs in [c for g in canon.local_bodies(prog, fn) for c in g.terms.calls]:
         for a in cs.args:
             for x in mir.subterms(a):
                 if x[0] == "gamma" and mir.is_call(strip(x[1]), "polarity") and all(strip(v)[0] == "const" and strip(v)[1] == "&str" for _, v in x[2]):
